@@ -34,7 +34,8 @@ def module_for(seed, index, size=None, opts=None):
 
 def build_case(seed, index, n_args, size=None, opts=None, fuel=FUEL):
     m, rng = module_for(seed, index, size, opts)
-    src = pp.pp_module(m)
+    mods = pp.pp_modules(m)
+    src = "\n".join("// ---- module %s\n%s" % (x["name"], x["src"]) for x in mods) if len(mods) > 1 else mods[0]["src"]
     adts = M.adt_table(m.adts)
     entries = []
     for e in m.entries:
@@ -45,11 +46,12 @@ def build_case(seed, index, n_args, size=None, opts=None, fuel=FUEL):
             enc.append([M.value_to_json(v, t, adts) for v, t in zip(tup, types)])
             exp.append(interp.run(m, e, list(tup), fuel))
         entries.append({"name": e.fn.name, "args": enc, "expected": exp, "values": argv})
-    return {"index": index, "module": m, "src": src, "entries": entries, "features": set(m.features), "feature_counts": dict(m.features)}
+    return {"index": index, "module": m, "src": src, "modules": mods, "entries": entries, "features": set(m.features), "feature_counts": dict(m.features)}
 
 
 def cases(seed, n_modules, n_args, size=None, opts=None):
-    """Yield {"src", "entries": [{"name", "args": [[data..]..], "expected": [("ok", data) | ("abort",) | ("fuel",)]}], "features"}."""
+    """"modules": [{"name","kind","src"}] in dependency order (entries live in module "m"); "src" is the same text
+    in one string. Yield {"src", "modules", "entries": [{"name", "args": [[data..]..], "expected": [("ok", data) | ("abort",) | ("fuel",)]}], "features"}."""
     for i in range(n_modules):
         c = build_case(seed, i, n_args, size, opts)
         yield c
@@ -102,7 +104,7 @@ def main(argv=None):
             keep = [i for i, x in enumerate(e["expected"]) if x[0] != "fuel"]
             e["sent"] = keep
             ents.append({"name": e["name"], "args": [e["args"][i] for i in keep]})
-        jobs.append(drv.make_job(c["index"], c["src"], ents))
+        jobs.append(drv.make_job(c["index"], c["modules"], ents))
     t1 = time.time()
     res = drv.run_many(jobs, shards=a.shards)
     t_run = time.time() - t1
@@ -156,17 +158,24 @@ def main(argv=None):
                 else:
                     lz = classify(c, e, k)
                     explained = (lz[0] == "ok" and o[0] == "ok" and o[1] == lz[1])
+                    tags = sorted(f for f in c["features"] if f.startswith("known:"))
+                    why = None
                     if explained:
                         st["lazy_explained"] += 1
+                        why = "call-by-need"
+                    elif tags:
+                        st["in_known_shape_modules"] = st.get("in_known_shape_modules", 0) + 1
+                        why = "module contains " + ",".join(tags)
                     st["disagree"] += 1
-                    disagreements.append((c, e, k, exp, o, "call-by-need" if explained else None))
+                    disagreements.append((c, e, k, exp, o, why))
 
     total = st["agree_value"] + st["agree_abort"]
     print("== C01 run: seed=%d n=%d args=%d" % (a.seed, a.n, a.args))
     print("modules generated      : %d  (%.1f modules/min generation+interpretation)" % (st["modules"], 60.0 * st["modules"] / max(t_gen, 1e-9)))
     print("rejected by checker    : %d (%.1f%%)   driver died/timeouts: %d   compile panics: %d" % (st["rejected"], 100.0 * st["rejected"] / max(1, st["modules"]), st["died"], st["panic"]))
     print("cases agreed           : %d  (value %d, abort %d = %.1f%% aborts)  fuel-skipped %d  other %d" % (total, st["agree_value"], st["agree_abort"], 100.0 * st["agree_abort"] / max(1, total), st["fuel"], st["other"]))
-    print("DISAGREEMENTS          : %d new  + %d that coincide with a call-by-need evaluation of the source (FINDINGS.md F1 class)" % (st["disagree"] - st["lazy_explained"], st["lazy_explained"]))
+    known_n = st["lazy_explained"] + st.get("in_known_shape_modules", 0)
+    print("DISAGREEMENTS          : %d new  + %d call-by-need (FINDINGS.md F1 class)  + %d in modules generated with a known trigger shape (--include-known)" % (st["disagree"] - known_n, st["lazy_explained"], st.get("in_known_shape_modules", 0)))
     for key, idxs in sorted(known_panics.items()):
         print("known compile panic    : %s in %d entries (modules %s)" % (key, len(idxs), sorted(set(idxs))[:8]))
     for site, lst in sorted(panics.items()):
@@ -203,7 +212,7 @@ def main(argv=None):
             if not a.dump:
                 print(c["src"])
     print("modules with a disagreement: %s" % sorted(seen_mod))
-    return 1 if (st["disagree"] - st["lazy_explained"] or st["panic"]) else 0
+    return 1 if (st["disagree"] - known_n or st["panic"]) else 0
 
 
 if __name__ == "__main__":
